@@ -438,7 +438,6 @@ M('DU2', 'src/xdoctest/runner.py', """            if part.want:
                 want_text = '# doctest want:\\n'""", """            if part.want and len(part.want_lines) < 2:
                 want_text = '# doctest want:\\n'""", ['C19'], 'dump loses multi-line wants')
 M('DU3', 'src/xdoctest/runner.py', "        if example.num:\n", "        if False:\n", ['C19'], 'F14 repair reverted: duplicate function names')
-M('DU4', 'src/xdoctest/utils/util_str.py', None, None, ['C19'], 'indent skips blank-looking lines')
 
 
 def make_copy():
